@@ -176,6 +176,11 @@ fn proc_subpath<Fd: AsRawFd>(fd: Fd) -> Result<String, Error> {
 /// [kcommit-a481f4d91783]: https://git.kernel.org/pub/scm/linux/kernel/git/torvalds/linux.git/commit/?id=a481f4d917835cad86701fc0d1e620c74bb5cd5f
 // TODO: Remove the explicit size once generic_arg_infer is stable.
 //       <https://github.com/rust-lang/rust/issues/85077>
+#[cfg(feature = "_verif_hooks")]
+pub(crate) fn verif_proc_subpath<Fd: AsRawFd>(fd: Fd) -> Result<String, Error> {
+    proc_subpath(fd)
+}
+
 const DANGEROUS_FILESYSTEMS: [rustix_fs::FsWord; 2] = [
     rustix_fs::PROC_SUPER_MAGIC, // procfs
     0x5a3c_69f0,                 // apparmorfs
